@@ -110,6 +110,12 @@ def fuse(ctx, lexpr):
     for it_path, step in ITERS:
         f = lexpr.fn(it_path)
         if f is None:
+            # the iterator type may live in a child module: found by the type's own name among the Iterator impls
+            tname = it_path.split(" as ")[0].rsplit("::", 1)[-1].split("<")[0]
+            cands = [g for g in lexpr.fns if g.impl_trait == "std::iter::Iterator" and g.path.endswith("::next")
+                     and (g.self_ty or "").rsplit("::", 1)[-1].split("<")[0] == tname and g.kind != "closure"]
+            f = cands[0] if len(cands) == 1 else None
+        if f is None:
             r.anchor_missing(it_path)
             continue
 
